@@ -10,6 +10,7 @@ package main
 //           mfl <slot> <n>      finish it, but the new owner lags behind: it still answers <n> commands with MOVED <old owner>
 //           ml <slot>           the new owner learns
 //           w                   give the proxy time to refresh its routing table
+//           cd / cu             the cluster reports itself down (CLUSTERDOWN to every keyed command) / is up again
 //           qx <request tokens> a request whose reply is lost: the node executes it and the connection dies (single key)
 //   optional 4th header field new=<k>: node k owns no slot, is not a configured host and is slow (a node that just joined)
 //   bg = 1: a second connection keeps reading its own key through the proxy during the whole case
@@ -262,6 +263,14 @@ func runC04(line string) string {
 					}
 					replies = append(replies, "NO-REFRESH-AFTER-FAILOVER")
 				}
+			}
+		case "cd", "cu":
+			// the cluster reports itself down (every keyed command answers CLUSTERDOWN) / is up again
+			cl.mu.Lock()
+			cl.down = fs[0] == "cd"
+			cl.mu.Unlock()
+			if fs[0] == "cu" {
+				settle(40 * time.Millisecond) // the refresh the CLUSTERDOWN reply triggered
 			}
 		case "w":
 			before := sp.counter("upstream.slots_refresh.success_total")
@@ -625,6 +634,11 @@ func init() {
 						continue
 					}
 					q := "q " + req()
+					if !multi && r.chance(1, 14) {
+						// the cluster is down for exactly one request; the ones after it are served as ever
+						items = append(items, "cd", q, "cu")
+						continue
+					}
 					if !multi && r.chance(1, 10) {
 						items = append(items, "qx"+q[1:])
 						continue
